@@ -49,15 +49,37 @@ func TestVerifReplay(t *testing.T) {
 		{"CONNECT user property value cut", []byte{0x10, 0x12, 0x00, 0x04, 'M', 'Q', 'T', 'T', 0x05, 0x00, 0x00, 0x0a, 0x07, 0x26, 0x00, 0x01, 0x6b, 0x00, 0x05, 0x76}},
 		{"remaining length of five bytes", []byte{0xe0, 0x80, 0x80, 0x80, 0x80, 0x00}},
 	}
+	// every identifier byte that MQTT v5.0 does not define, followed by a few plausible value bytes
+	defined := map[byte]bool{0x01: true, 0x02: true, 0x03: true, 0x08: true, 0x09: true, 0x0b: true, 0x11: true, 0x12: true, 0x13: true, 0x15: true, 0x16: true, 0x17: true,
+		0x18: true, 0x19: true, 0x1a: true, 0x1c: true, 0x1f: true, 0x21: true, 0x22: true, 0x23: true, 0x24: true, 0x25: true, 0x26: true, 0x27: true, 0x28: true, 0x29: true, 0x2a: true}
+	tails := [][]byte{{}, {0x00}, {0x01}, {0x00, 0x00}, {0x00, 0x00, 0x0a}, {0x00, 0x00, 0x00, 0x00, 0x01}, {0x00, 0x00, 0x01, 0x61}, {0x00, 0x00, 0x01, 0x6b, 0x00, 0x01, 0x76}}
+	for id := 0; id < 256; id++ {
+		if defined[byte(id)] {
+			continue
+		}
+		for _, tail := range tails {
+			props := append([]byte{byte(id)}, tail...)
+			// CONNACK: flags, reason code, properties; DISCONNECT: reason code, properties; PUBLISH qos 0: topic "a", properties
+			cases = append(cases, tc{fmt.Sprintf("CONNACK undefined property identifier 0x%02x", id), append([]byte{0x20, byte(3 + len(props)), 0x00, 0x00, byte(len(props))}, props...)})
+			cases = append(cases, tc{fmt.Sprintf("DISCONNECT undefined property identifier 0x%02x", id), append([]byte{0xe0, byte(2 + len(props)), 0x00, byte(len(props))}, props...)})
+			cases = append(cases, tc{fmt.Sprintf("PUBLISH undefined property identifier 0x%02x", id), append([]byte{0x30, byte(4 + len(props)), 0x00, 0x01, 0x61, byte(len(props))}, props...)})
+		}
+	}
+	found := 0
 	for _, c := range cases {
+		if found >= 5 {
+			break
+		}
 		func() {
 			defer func() {
 				if e := recover(); e != nil {
+					found++
 					fmt.Printf("REPLAY-FOUND %s (frame % x): ReadPacket panicked: %v\n", c.name, c.frame, e)
 				}
 			}()
 			p, err := ReadPacket(bytes.NewReader(c.frame))
 			if err == nil || p != nil {
+				found++
 				fmt.Printf("REPLAY-FOUND %s (frame % x): ReadPacket returned packet=%v err=%v, expected a rejection\n", c.name, c.frame, p, err)
 			}
 		}()
